@@ -244,16 +244,50 @@ UNICODE_LINES = ["#wa:build \u03b1x", "#wa:build \u03b1x\u00b2", "#wa:build \u00
                  "#wa:build \u0663", "#wa:build a\u2003&& b", "#wa:build !(!\u00e9)", "#wa:build a\u3000", "#wa:build\u3000a || \u00e9", "#wa:build a\u0085"]
 
 
-def gen_skip(ctx):
+def extract_vocab():
+    """words the code around build constraints treats specially, re-extracted from /repo's sources on every run"""
+    import subprocess, sys
+    p = subprocess.run([sys.executable, os.path.join(vlib.VERIF, "extract", "c24_vocab.py"), vlib.REPO],
+                       stdout=subprocess.PIPE, stderr=subprocess.PIPE, text=True, timeout=120)
+    try:
+        words = json.loads(p.stdout)
+    except ValueError:
+        words = []
+    if p.returncode != 0 or len(words) < 10:
+        raise vlib.InfraError("extract/c24_vocab.py failed: %s" % p.stderr[-500:])
+    return [w for w in words if all(is_tag_char(c) for c in w)]
+
+
+TARGETS = ["js", "wasm4", "arduino", "linux", "windows", "unknown", "wasm", "loong64", "riscv32", "x64", "clang", "wasi"]
+
+
+def pick_words(ctx, vocab):
+    """quick: the most specific sources first (directive constants, astutil, os/arch tables) + a random sample of the rest"""
+    if ctx.tier != "quick":
+        return list(vocab)
+    head, rest = vocab[:110], vocab[110:]
+    return head + ctx.rng.sample(rest, min(30, len(rest)))
+
+
+def word_lines(w, os_):
+    """constraints that use the word w as an ORDINARY tag, true / false / malformed"""
+    return [w, "%s || %s" % (w, os_), "%s || !%s" % (w, os_), "%s && %s" % (w, os_), "%s || %s" % (os_, w), "!%s" % w,
+            "!%s && %s" % (w, os_), "(%s)" % w, "%s && (" % w, "%s ||" % w, "%s %s" % (w, os_)]
+
+
+def gen_skip(ctx, vocab):
     rng = ctx.rng
     out = []
     n = 250 if ctx.tier == "quick" else 5000
     oses = ["-", "js", "wasi", "linux", "a", "wasm4"]
     arches = ["-", "wasm", "loong64", "riscv64", "b"]
     mos = ["-", "-", "wasi", "c", "js"]
+    avocab = [w for w in vocab if w.isascii()]
     for i in range(n):
-        tags = [t for t in ALPHA + ["fmt_tag", "wasm", "js"] if rng.random() < 0.3]
-        t1 = gen_tree(rng, rng.choice([0, 1, 2, 3]), ALPHA + ["js", "wasi", "wasm", "loong64", "fmt_tag", "linux"], notnot=rng.random() < 0.05)
+        special = rng.sample(avocab, 3) + ["ignore"] if i % 2 else []
+        pool = ALPHA + ["js", "wasi", "wasm", "loong64", "fmt_tag", "linux"] + special
+        tags = [t for t in ALPHA + ["fmt_tag", "wasm", "js"] + special if rng.random() < 0.3]
+        t1 = gen_tree(rng, rng.choice([0, 1, 2, 3]), pool, notnot=rng.random() < 0.05)
         e1 = render(rng, t1, 0, messy=rng.random() < 0.5)
         t2 = gen_tree(rng, 1, ALPHA, False)
         e2 = render(rng, t2, 0, False)
@@ -276,7 +310,50 @@ def gen_skip(ctx):
         else:
             src, first = "// doc comment\n#wa:build %s\nfunc f() {}\n// trailing\n#wa:build %s\n" % (e1, e2), e1
         out.append(("skip %s %s %s %s %s" % (rng.choice(oses), rng.choice(arches), rng.choice(mos), ",".join(tags) or "-", hx(src)), first, tags))
+    # every special word as an ordinary tag through the loader's file filter: alone, with the target os, negated,
+    # malformed; with and without the word among the configured tags; as doc comment and as a detached comment
+    for w in pick_words(ctx, vocab):
+        for e in word_lines(w, "js"):
+            for tags in ([], [w]):
+                for src in ("// generated\n\n#wa:build %s\n\nfunc F() {}\n" % e, "#wa:build %s\nfunc F() {}\n" % e):
+                    out.append(("skip js - - %s %s" % (",".join(tags) or "-", hx(src)), e, tags))
     return out
+
+
+def gen_loads(ctx, vocab):
+    """whole file-selection path (loader.LoadProgram on a generated module): (op, lines, target, tags)"""
+    rng = ctx.rng
+    avocab = [w for w in vocab if w.isascii()]
+    words = pick_words(ctx, avocab)
+    loads = []
+    targets = ["js", "wasm4", "-"]
+    # the special words, a dozen per module, under several (target, tags) configurations
+    chunks = [words[i:i + 6] for i in range(0, len(words), 6)]
+    if ctx.tier == "quick":
+        chunks = chunks[:4] + rng.sample(chunks[4:], min(4, max(0, len(chunks) - 4)))
+    for ch in chunks:
+        for tgt in targets[:2] if ctx.tier == "quick" else targets:
+            os_ = "js" if tgt == "-" else tgt
+            lines = []
+            for w in ch:
+                lines += ["#wa:build " + e for e in word_lines(w, os_)[:7]]
+            lines.append("// no constraint")
+            for tags in ([], [ch[0]], ch[:3] + ["extra"]):
+                loads.append((lines, tgt, tags))
+    # random formulas
+    for _ in range(6 if ctx.tier == "quick" else 150):
+        pool = ALPHA + ["js", "wasm4", "wasm", "ignore"] + rng.sample(avocab, 3)
+        lines = ["#wa:build " + render(rng, gen_tree(rng, rng.choice([1, 2, 3]), pool, False), 0, messy=rng.random() < 0.5) for _ in range(10)]
+        loads.append((lines, rng.choice(targets), [t for t in pool if rng.random() < 0.3]))
+    # malformed: exactly one bad file per module, whatever its first word is
+    bads = []
+    for w in ["ignore", "js"] + rng.sample(avocab, 4 if ctx.tier == "quick" else 40):
+        bads += ["%s && (" % w, "%s ||" % w, "%s )" % w, "%s & js" % w, "!!%s" % w, "%s js" % w]
+    if ctx.tier == "quick":
+        bads = bads[:12] + rng.sample(bads[12:], 6)
+    for b in bads:
+        loads.append((["#wa:build js || a", "#wa:build " + b, "#wa:build !js"], rng.choice(targets[:2]), rng.choice([[], ["ignore"], ["a"]])))
+    return [("load %s %s %s" % (t, ",".join(tags) or "-", hx("\x1e".join(lines))), lines, t, tags) for lines, t, tags in loads]
 
 
 # ------------------------------------------------------------------ the check ----
@@ -315,7 +392,9 @@ def run(ctx):
         skips = [(rp["op"], rp.get("first"), rp.get("tags", []))] if "op" in rp else []
     else:
         lines += gen_lines(ctx)
-        skips = gen_skip(ctx)
+        vocab = extract_vocab()
+        skips = gen_skip(ctx, vocab)
+        loads = gen_loads(ctx, vocab)
     seen = set()
     lines = [x for x in lines if not (x[0] in seen or seen.add(x[0]))]
     ascii_lines = [x for x in lines if all(ord(c) < 128 for c in x[0])]
